@@ -1,4 +1,5 @@
 """C16 families 'member' (flat membership biconditional) and 'cond' (refusal)."""
+import json
 from vv import gen
 from vv import c16_cond as cond
 from vv.c16_util import enc, dec, xmember, xmember1, nxt
@@ -247,11 +248,32 @@ def gen_cond_case(rng):
   return tree, variants
 
 
+def case_staged(tree, name):
+  """Half of the conditional cases build the space in two stages (deterministic in the case)."""
+  return (len(json.dumps(tree, sort_keys=True, default=str)) + len(name)) % 2
+
+
 def exec_cond(ctx, tree, name, a):
   from vizier import pyvizier as vz
   case = {'family': 'cond', 'tree': tree, 'variant': name, 'assignment': enc(a)}
-  space = cond.build_tree(tree)
-  ctx.case(['cond', cond.tree_shape(tree), name], True)
+  staged = bool(case_staged(tree, name))
+  if staged:
+    # same space, but looked at and queried while it was still flat
+    def probe(sp):
+      top = {p['name']: a[p['name']] for p in tree if p['name'] in a}
+      _call(lambda: sp.is_conditional)
+      _call(sp.contains, vz.ParameterDict(top))
+    try:
+      space = cond.build_tree_queried_while_flat(tree, probe)
+    except Exception as e:  # pylint: disable=broad-except
+      ctx.violation(f'builder:valid-conditional-definition-rejected:{type(e).__name__}:staged',
+                    f'attaching children after the flat space was queried raised {type(e).__name__}: {e}', case)
+      return
+    case['staged'] = True
+    ctx.count('conditional_spaces_queried_while_flat')
+  else:
+    space = cond.build_tree(tree)
+  ctx.case(['cond', cond.tree_shape(tree), name, staged], True)
   if not space.is_conditional:
     ctx.violation('conditional-space-not-recognised',
                   'is_conditional is False for a space with child parameters', case)
